@@ -116,6 +116,7 @@ pub fn in_take() -> BoxedStrategy<u32> {
         1 => Just(258u32),
         1 => Just(4096u32),
         1 => Just(65536u32),
+        1 => 32_760u32..=32_776,
         2 => 1u32..=100_000,
     ]
     .boxed()
@@ -148,5 +149,30 @@ pub struct Schedule {
 }
 
 pub fn schedule(max_steps: usize) -> BoxedStrategy<Schedule> {
-    (proptest::collection::vec(step(3), 0..=max_steps), proptest::collection::vec(out_size(), 1..=3)).prop_map(|(steps, finish_out)| Schedule { steps, finish_out }).boxed()
+    let plain = (proptest::collection::vec(step(3), 0..=max_steps), proptest::collection::vec(out_size(), 1..=3)).prop_map(|(steps, finish_out)| Schedule { steps, finish_out });
+    // schedules whose call boundaries fall at (or a few bytes around) the compressor's internal
+    // thresholds: the 4 KiB fast-path look-ahead, the 32 KiB dictionary ring, 64 KiB, the 258-byte
+    // look-ahead of the normal path
+    let target = (prop_oneof![
+        3 => (1u32..=4, Just(32_768u32)).prop_map(|(k, m)| k * m),
+        2 => (1u32..=20, Just(4_096u32)).prop_map(|(k, m)| k * m),
+        1 => Just(65_536u32),
+        1 => Just(31_744u32),
+        1 => (1u32..=300, Just(258u32)).prop_map(|(k, m)| k * m),
+        2 => 1u32..=200,
+    ], -8i32..=8).prop_map(|(t, d)| (t as i64 + d as i64).max(0) as u32);
+    let fl = prop_oneof![6 => Just(0u8), 3 => Just(2u8), 1 => Just(3u8), 1 => Just(1u8), 1 => Just(7u8)];
+    let out = prop_oneof![3 => Just(1u32 << 20), 1 => out_size()];
+    let aligned = (proptest::collection::vec((target, out, fl), 1..=max_steps.max(1)), proptest::collection::vec(out_size(), 1..=3)).prop_map(|(mut t, finish_out)| {
+        t.sort_by_key(|x| x.0);
+        let mut pos = 0u32;
+        let mut steps = Vec::new();
+        for (target, out_size, flush) in t {
+            let take = target.saturating_sub(pos);
+            pos = pos.max(target);
+            steps.push(Step { in_take: take, out_size, flush });
+        }
+        Schedule { steps, finish_out }
+    });
+    prop_oneof![5 => plain, 2 => aligned].boxed()
 }
